@@ -223,7 +223,10 @@ def run(ctx):
         pay = rng.choice(pls)
         shape = rng.choice(["arr", "set"])
         jwk = ks if shape == "arr" else {"keys": ks}
-        tm = rng.choice([None, {"header": {"kid": "shared"}}, "per-key"])
+        # one template shared by all keys: each key must get its own copy, down to the nested protected object, so that an
+        # algorithm inferred for one key is not seen by the next (keys of different kinds infer different algorithms)
+        tm = rng.choice([None, {"header": {"kid": "shared"}}, "per-key", {"protected": {"kid": "shared-protected"}},
+                         {"protected": {"typ": "JWT"}, "header": {"kid": "both"}}])
         sigt = [{"protected": {"alg": rng.choice(G.algs_for(n, pool[n]))}} for n in ns] if tm == "per-key" else tm
         a = {"jws": {"payload": G.b64u(pay)}, "jwk": jwk, "rnd": [rng.randbytes(32).hex() for _ in ks], "_expect_ok": True, "_keys": ks}
         if sigt is not None:
